@@ -14,10 +14,11 @@ from pynguin.utils import randomness
 
 PROPERTY = "C12"
 
-# Aggregate queries (get_fitness() / get_coverage()) are issued only when at least one function of that kind is
-# registered.  The one behaviour this leaves out -- an aggregate query over an EMPTY function list consumes the
-# `changed` flag of a test-case chromosome -- is decided by its own obligation (h_empty_aggregate, known finding).
-_STRICT = [True]
+# Historical switch: before /repo commit eb206d5 an aggregate query over an EMPTY function list consumed the `changed`
+# flag of a test-case chromosome (finding, since repaired); histories then issued get_fitness() only with a fitness
+# function registered.  Now lifted: get_fitness() is queried always.  (get_coverage() over nothing raises
+# StatisticsError by design and is exercised in h_empty_aggregate only.)
+_STRICT = [False]
 
 
 class _Bad(Exception):
@@ -517,6 +518,82 @@ def h_suite(reg: int, creg: int, k: int, c0: int, c1: int, n: int,
     return reach(True)
 
 
+# =============================================================================== two live suites
+def h_two_suites(chk: int, reg: int, creg: int, ka: int, kb: int, a0: int, a1: int, b0: int, b1: int,
+                 p1: int, p2: int, evalb: bool, how: int, i: int, newc: int) -> bool:
+    """
+    pre: 0 <= chk <= 1 and 0 <= reg <= 3 and 0 <= creg <= 3 and 0 <= ka <= 2 and 0 <= kb <= 2
+    pre: 0 <= a0 <= 2 and 0 <= a1 <= 2 and 0 <= b0 <= 2 and 0 <= b1 <= 2 and 0 <= p1 <= 2 and 0 <= p2 <= 2
+    pre: 0 <= how <= 3 and 0 <= i <= 1 and 0 <= newc <= 2
+    post: _
+    """
+    if p1 > ka or p2 > kb or i >= kb:
+        return vacuous()
+    ex = S.Executor()
+    ma = _SuiteModel(ex, ka, a0, a1, reg, creg)
+    mb = _SuiteModel(ex, kb, b0, b1, reg, creg)
+    sa, sb = ma.su, mb.su
+    try:
+        if how == 3:
+            sb.get_fitness()  # B already evaluated before the crossover (its tests are unchanged, results cached)
+        want_a = ma.contents(sa)[:p1] + mb.contents(sb)[p2:]
+        want_b = mb.contents(sb)
+        sa.cross_over(sb, p1, p2)  # both suites stay alive: B is NOT a throw-away copy
+        if ma.contents(sa) != want_a or mb.contents(sb) != want_b:
+            return reach(False)
+        # structural statement: after the crossover A holds none of B's test-case chromosome objects
+        if chk == 0:
+            for ta in sa.test_case_chromosomes:
+                for tb in sb.test_case_chromosomes:
+                    if ta is tb:
+                        return reach(False)
+        ma.sweep(sa)  # evaluate A: its caches are complete now
+        # ---- change B's i-th test in place
+        tb = sb.test_case_chromosomes[i]
+        if how == 0 or how == 3:  # the real TestSuiteMutation on B, mutating exactly that test
+            draws = [7] * sb.size()
+            draws[i] = 0
+            randomness.RNG = S.TapeRandom(draws + [7])
+            S.CaseChromosome.plan = [(True, newc)] if sb.size() > 1 or i == 0 else []
+            sb.mutate()
+        elif how == 1:  # a direct edit of the contained test, flagged on the test and on B
+            tb.test_case = S.TC(newc)
+            tb.changed = True
+            sb.changed = True
+        else:  # the test's own mutation operator, B flagged the way TestSuiteMutation does
+            S.CaseChromosome.plan = [(True, newc)]
+            tb.mutate()
+            sb.changed = True
+        want_b = list(want_b)
+        want_b[i] = newc
+        if evalb:
+            mb.sweep(sb)  # evaluating B re-executes the test and clears its `changed` flag
+        # ---- A must be untouched, and everything it reports must match its current tests
+        if ma.contents(sa) != want_a:
+            return reach(False)
+        ma.sweep(sa)
+        if mb.contents(sb) != want_b:
+            return reach(False)
+        mb.sweep(sb)
+        ma.sweep(sa)
+    except Exception:  # noqa: BLE001
+        return reach(False)
+    return reach(True)
+
+
+def py_two_suites(regs=(1, 3), cregs=(1,)):
+    def run():
+        b = (False, True)
+        sp = {"chk": (0, 1), "reg": regs, "creg": cregs, "ka": range(3), "kb": (1, 2), "a0": range(3), "a1": range(3),
+              "b0": range(3), "b1": range(3), "p1": range(3), "p2": range(3), "evalb": b, "how": range(4),
+              "i": (0, 1), "newc": range(3)}
+        return _enumerate(h_two_suites, sp, keep=lambda kw: kw["p1"] <= kw["ka"] and kw["p2"] <= kw["kb"]
+                          and kw["i"] < kw["kb"] and (kw["ka"] == 2 or kw["a1"] == 0) and (kw["kb"] == 2 or kw["b1"] == 0)
+                          and (kw["ka"] >= 1 or kw["a0"] == 0))
+
+    return run
+
+
 # =============================================================================== exhaustive enumeration (engine Py)
 def _enumerate(fn, spaces, keep=None, limit_samples=3):
     """Decide ``fn`` over the full product of the finite selector domains (a complete decision procedure within
@@ -550,9 +627,9 @@ def _arg_ok(o, a, one_arg_ops):
 
 def py_case(n, regs=(0, 1, 2, 3), cregs=(0, 1, 2, 3)):
     def run():
-        sp = {"reg": regs, "creg": cregs, "unreg": (False,), "n": (n,), "c0": (0, 1, 2)}
+        sp = {"reg": regs, "creg": cregs, "unreg": (True,), "n": (n,), "c0": (0, 1, 2)}
         for i in range(1, 5):
-            sp[f"o{i}"] = range(12) if i <= n else (0,)
+            sp[f"o{i}"] = range(14) if i <= n else (0,)
             sp[f"a{i}"] = range(3) if i <= n else (0,)
         return _enumerate(h_case, sp, keep=lambda kw: all(kw[f"a{i}"] <= 1 or kw[f"o{i}"] == 0 for i in range(1, n + 1)))
 
@@ -613,11 +690,15 @@ META = {
              "left behind and on every contained test, and no such query raises.  For test-case chromosomes "
              "additionally one step from EVERY state satisfying the invariant Inv (unchanged => no stale execution "
              "result and only correct cached values; caches hold registered functions only) re-establishes Inv and "
-             "yields only correct values: an induction over histories of any length.  Short histories are explored "
+             "yields only correct values: an induction over histories of any length.  Two LIVE suites: after "
+             "A.cross_over(B, p1, p2) A holds none of B's TestCaseChromosome objects, and changing B's tests in place "
+             "afterwards (real TestSuiteMutation on B, direct edit, the test's own mutate; B evaluated or not) leaves A's "
+             "contents and every value A reports equal to recomputation.  Short histories are explored "
              "symbolically with CrossHair, the full bounded spaces are decided by exhaustive enumeration of the same "
              "harness functions (all inputs are small finite selectors, so enumeration is complete within the bound).  "
-             "Two weak spots are isolated in their own obligations and listed as findings: aggregate queries over an "
-             "empty function list, and queries for functions that are not registered.",
+             "Aggregate queries over an empty function list and queries for functions that are not registered (two "
+             "findings of an earlier run, repaired in /repo commit eb206d5) are part of the enumerated histories and "
+             "have their own obligations (empty_aggregate, unregistered).",
     "note": "Trusts CPython 3.12.1 (enumeration), CrossHair's int/bool/float models and z3 (symbolic obligations).  "
             "Test cases, their execution, the fitness/coverage functions and TestCaseMutation are stubs.",
     "functions": ["pynguin.ga.computation_cache.ComputationCache.*", "pynguin.ga.chromosome.Chromosome.__init__ (clone "
@@ -627,15 +708,17 @@ META = {
                   "operators.crossover.splice_test_suite_chromosomes", "operators.mutation.TestSuiteMutation.mutate",
                   "AbstractTestCaseExecutor.execute_multiple"],
     "bounds": {"contents": "3 values; 2 fitness + 2 coverage functions per level, any subset registered initially",
-               "test_case_histories": "12 operation kinds; enumeration: quick 3, thorough 4 operations + final sweep of all "
+               "test_case_histories": "14 operation kinds (incl. queries for unregistered functions); enumeration: quick 3, thorough 4 operations + final sweep of all "
                                       "queries; CrossHair: 2 operations",
                "inductive_step": "every Inv-state (changed x result none/fresh/stale x 6 cache-presence bits x junk) x 12 ops",
+               "two_suites": "suites of 0-2 / 1-2 tests, all split points, 4 ways of changing B's test, B evaluated or not",
                "suite_histories": "17 operation kinds on suites of 0-2 initial tests; enumeration: quick 2, thorough 3 "
                                   "operations; CrossHair: 1 operation"},
     "outside": ["TestCaseMutation on real test cases (its stale-flag path when the mutated test loses all calls on the "
                 "SUT is asserted in C15), splice_test_case_chromosomes",
                 "edits of a test contained in a suite that bypass the suite (direct t.mutate() without flagging the "
-                "suite) and one test object shared by two suites",
+                "suite); the same test object put into two suites by the caller (add_test_case_chromosome of an object "
+                "that already lives in another suite)",
                 "ExecutionResult objects mutated in place after cloning (delete_statement_data)",
                 "set_fitness_values / set_coverage_values (local search), non-deterministic fitness functions",
                 "registering the same function twice"],
@@ -663,6 +746,11 @@ def obligations(tier: str):
         Py("enum_case", py_case(3 if q else 4, regs=(0, 1, 2, 3) if q else (0, 1, 3), cregs=(0, 1, 2, 3) if q else (0, 1))),
         Py("enum_case_step", py_step(regs=(0, 1, 3), cregs=(0, 1)) if q else py_step()),
         Py("enum_suite", py_suite(2) if q else py_suite(3, regs=(3,), cregs=(1,), starts=((2, 0, 1), (1, 2, 0)))),
+        # two live suites: crossover must not make them share test-case chromosome objects
+        Chx("two_suites", h_two_suites, timeout=T,
+            fix={"reg": 3, "creg": 1, "ka": 2, "kb": 2, "a0": 0, "a1": 1, "p1": 1, "p2": 0},
+            split={"chk": [0, 1], "how": [0, 1] if q else [0, 1, 2, 3]}),
+        Py("enum_two_suites", py_two_suites(regs=(3,), cregs=(1,)) if q else py_two_suites(regs=(0, 1, 3), cregs=(0, 1))),
         Py("enum_suite_cached", py_suite(3, regs=(3, 1), cregs=(1,), starts=((2, 0, 1), (1, 2, 0)) if q else
                                 ((0, 0, 0), (1, 2, 0), (2, 0, 1), (2, 1, 1)), first_ops=(9, 10, 11, 12, 13))),
     ]
